@@ -336,10 +336,14 @@ def partition_degenerate(solver):
     non-degenerate partition is NOT excused."""
     try:
         xs = [float(it.GetX()) for it in solver.searchData]
+        r = float(solver.parameters.r)
     except Exception:
         return False
+    # the rule's point lies at least (1-1/r)/2 of the interval away from either end: once that margin is below
+    # about two units in the last place the point is not representable strictly inside the interval
+    k = 8.0 + (4.0 / (1.0 - 1.0 / r) if r > 1.0 else 0.0)
     for a, b in zip(xs, xs[1:]):
-        if b - a <= 8 * float(np.spacing(b)):
+        if b - a <= k * float(np.spacing(b)):
             return True
     return False
 
